@@ -569,7 +569,15 @@ fn cur(rng: &mut Rng, len: usize) -> (Sx, Sx) {
     // mostly valid pairs in either alignment
     let b = rng.below(len + 1);
     let e = b + rng.below(len + 1 - b);
-    let (b, e) = if rng.chance(1, 12) { (e + 1, b) } else { (b, e) };
+    // one in 12 inverted, one in 12 ending beyond the text (by 1..3 codepoints: for texts with
+    // multi-byte characters still within the byte length)
+    let (b, e) = if rng.chance(1, 12) {
+        (e + 1, b)
+    } else if rng.chance(1, 12) {
+        (b, len + 1 + rng.below(3))
+    } else {
+        (b, e)
+    };
     let cb = if rng.chance(1, 4) { l(vec![a(1), a(b as i64 - len as i64)]) } else { l(vec![a(0), a(b as i64)]) };
     let ce = if rng.chance(1, 4) { l(vec![a(1), a(e as i64 - len as i64)]) } else { l(vec![a(0), a(e as i64)]) };
     (cb, ce)
